@@ -9,7 +9,7 @@ import (
 	"strings"
 
 	"vmon/internal/core"
-	_ "vmon/internal/props"
+	"vmon/internal/props"
 )
 
 type kvList map[string]string
@@ -32,6 +32,8 @@ func main() {
 	}
 	exe, _ := os.Executable()
 	switch os.Args[1] {
+	case "gentypes":
+		fmt.Print(props.GenNamedTypesSource(20260929, 240))
 	case "list":
 		for _, id := range core.AllIDs() {
 			fmt.Println(id)
